@@ -29,6 +29,10 @@ pub struct Scn {
     /// 4 hotspot QPS reject 5 hotspot QPS throttling 6 hotspot concurrency 7..9 breaker strategy 0..2
     pub variant: u8,
     pub rule: AnySpec,
+    /// optional second rule on the target (flow reject and breaker variants, whose decisions and states
+    /// do not depend on the order in which the rules are consulted)
+    #[serde(default)]
+    pub rule2: Option<AnySpec>,
     /// rules on unrelated resources before / after the reload (same family)
     pub others_before: Vec<AnySpec>,
     pub others_after: Vec<AnySpec>,
@@ -174,7 +178,22 @@ impl Prop for C11 {
         }
         let reload_at = rng.range(1, nops as u64 - 1) as usize;
         let new_threshold = if rng.chance(1, 4) && matches!(variant, 0 | 6) { Some(rng.range(1, 8)) } else { None };
-        serde_json::to_value(Scn { epoch_ns, target, variant, rule, others_before, others_after, reload_at, mode: rng.below(2) as u8, new_threshold, ops }).unwrap()
+        let mut rule2 = None;
+        if new_threshold.is_none() && matches!(variant, 0 | 1 | 7 | 8 | 9) && rng.chance(1, 2) {
+            // same variant (for breakers: same strategy and often the same window, so that the statistics are "reusable" between the two)
+            let mut r2 = gen_target(rng, variant, &target);
+            r2.set_id(format!("t2_{:x}", rng.below(0xffff)));
+            if let (AnySpec::Breaker(a), AnySpec::Breaker(b)) = (&rule, &mut r2) {
+                if rng.chance(2, 3) {
+                    b.interval_ms = a.interval_ms;
+                    b.buckets = a.buckets;
+                }
+            }
+            if !r2.same_rule(&rule) {
+                rule2 = Some(r2);
+            }
+        }
+        serde_json::to_value(Scn { epoch_ns, target, variant, rule, rule2, others_before, others_after, reload_at, mode: rng.below(2) as u8, new_threshold, ops }).unwrap()
     }
 
     fn execute(&self, scenario: &Value, cov: &mut Cov) -> RunResult {
@@ -275,6 +294,12 @@ fn run(sc: &Scn, w: &mut World, with_reload: bool, _shift: u64, cov: &mut Cov, c
     let vname = VARIANTS[sc.variant as usize % 10];
     let mut initial = sc.others_before.clone();
     initial.push(sc.rule.clone());
+    if let Some(r2) = &sc.rule2 {
+        initial.push(r2.clone());
+        if count {
+            cov.hit("two_rules_on_target");
+        }
+    }
     fam::load_all(fam, &initial);
     let mut seq: Vec<(usize, u64)> = vec![];
     let mut passed = RefWin::default();
@@ -310,13 +335,22 @@ fn run(sc: &Scn, w: &mut World, with_reload: bool, _shift: u64, cov: &mut Cov, c
                     cov.hit("reload_with_accumulated_state");
                 }
             }
+            let mut twins = vec![twin];
+            if let Some(r2) = &sc.rule2 {
+                let mut t2 = r2.clone();
+                t2.set_id(format!("{}_reloaded", r2.id()));
+                // given in the opposite order
+                twins.insert(0, t2);
+            }
             if sc.mode == 0 {
                 let mut all = sc.others_after.clone();
-                // shuffled position of the target rule: given first instead of last
-                all.insert(0, twin);
+                // shuffled position of the target rules: given first instead of last
+                for t in twins.into_iter().rev() {
+                    all.insert(0, t);
+                }
                 fam::load_all(fam, &all);
             } else {
-                let _ = fam::load_res(fam, &sc.target, &[twin]);
+                let _ = fam::load_res(fam, &sc.target, &twins);
                 let mut by_res: Vec<String> = sc.others_before.iter().chain(sc.others_after.iter()).map(|r| r.res()).collect();
                 by_res.sort();
                 by_res.dedup();
@@ -379,13 +413,20 @@ fn run(sc: &Scn, w: &mut World, with_reload: bool, _shift: u64, cov: &mut Cov, c
             }
         }
         if fam == 1 {
+            // states keyed by rule (the live order may differ between the two executions)
+            let mut states: Vec<(u64, u64)> = vec![];
             for b in cb::get_breakers_of_resource(&sc.target) {
                 let s = match b.current_state() {
                     cb::State::Closed => 0,
                     cb::State::Open => 1,
                     cb::State::HalfOpen => 2,
                 };
-                seq.push((i, 0xB000 + s));
+                let k = if b.bound_rule().id.starts_with(sc.rule.id()) { 0 } else { 1 };
+                states.push((k, s));
+            }
+            states.sort();
+            for (k, s) in states {
+                seq.push((i, 0xB000 + s + 16 * k));
             }
         }
     }
